@@ -510,3 +510,25 @@ package fontscan
 //@   ensures [aspect-set] result.Aspect.Style != 0 && result.Aspect.Stretch != 0 && result.Aspect.Weight != 0
 //@   ensures [user-provided] result.isUserProvided
 //@   modifies unspecified
+//
+// Family selection ("independent of earlier lookups"): the family crible is a buffer shared between queries; the
+// substitution pass must start from an empty crible, otherwise scores of the previous query leak into this one.
+// reset (a delete loop over all keys) is trusted to empty the map.
+//@ trusted familyCrible.reset
+//@   ensures [emptied] len(fc) == 0
+//@   modifies unspecified
+//@ trusted familyCrible.fillWithSubstitutionsList
+//@   requires [starts-from-empty-crible] len(fc) == 0
+//@   modifies unspecified
+//@ func familyCrible.fillWithSubstitutions C14
+//@   mode int
+//@   requires [starts-from-empty-crible] len(fc) == 0
+//@   modifies unspecified
+//@ trusted fontSet.selectByFamiliesAndScript
+//@   modifies unspecified
+//@ func fontSet.selectByFamilyExact C14
+//@   mode int
+//@   modifies unspecified
+//@ func fontSet.selectByFamilyWithSubs C14
+//@   mode int
+//@   modifies unspecified
